@@ -204,6 +204,9 @@ func validateStruct(val reflect.Value, opts *options) error {
 func validateMap(val reflect.Value, opts *options) error {
 	val = chaseValue(val)
 	for _, key := range val.MapKeys() {
+		if err := tryValidate(key); err != nil {
+			return err
+		}
 		if err := tryRecursiveValidate(val.MapIndex(key), opts, nil); err != nil {
 			return err
 		}
